@@ -44,31 +44,40 @@ type goroutineRec struct {
 }
 
 type Interp struct {
-	prog      *ssa.Program
-	cfg       *Config
-	p         *Path
-	f         *termFactory
-	globals   map[*ssa.Global]*Value
-	pkgInit   map[*ssa.Package]int
-	mutexes   map[*Value]*mutexState
-	onceDone  map[*Value]bool
-	steps     int64
-	maxSteps  int64
-	stepLabel string
-	unwind    int
-	cur       *frame
-	depth     int
-	gos       []goroutineRec
-	funcsSeen map[*ssa.Function]struct{}
-	inInit    int
-	uniq      map[string]*Value
-	lockLog   []string
-	stubHits  map[string]int
-	divCount  int
-	divMemo   map[divKey][2]*Term
-	lemmaRec  map[string][]lemmaRecord
-	lemmaUses int
-	lazyCount int
+	prog       *ssa.Program
+	cfg        *Config
+	p          *Path
+	f          *termFactory
+	globals    map[*ssa.Global]*Value
+	pkgInit    map[*ssa.Package]int
+	mutexes    map[*Value]*mutexState
+	onceDone   map[*Value]bool
+	steps      int64
+	maxSteps   int64
+	stepLabel  string
+	unwind     int
+	cur        *frame
+	depth      int
+	gos        []goroutineRec
+	funcsSeen  map[*ssa.Function]struct{}
+	inInit     int
+	uniq       map[string]*Value
+	lockLog    []string
+	stubHits   map[string]int
+	divCount   int
+	divMemo    map[divKey][2]*Term
+	lemmaRec   map[string][]lemmaRecord
+	lemmaUses  int
+	lazyCount  int
+	guardCells map[*Value]*guardInfo
+	guardMaps  map[*Map]*guardInfo
+	guardHits  int
+}
+
+// guardInfo ties a piece of state to the mutex documented to protect it.
+type guardInfo struct {
+	mu    *Value
+	label string
 }
 
 type divKey struct {
@@ -590,6 +599,9 @@ func (in *Interp) loadPtr(fr *frame, p Value) Value {
 		if p == nil {
 			in.throw("invalid memory address or nil pointer dereference")
 		}
+		if len(in.guardCells) > 0 {
+			in.checkGuardCell(p, false)
+		}
 		v := *p
 		if pz, bad := v.(Poison); bad {
 			panic(unsupported{"use of value that could not be computed: " + pz.why})
@@ -607,6 +619,9 @@ func (in *Interp) storePtr(p Value, v Value) {
 		if p == nil {
 			in.throw("invalid memory address or nil pointer dereference")
 		}
+		if len(in.guardCells) > 0 {
+			in.checkGuardCell(p, true)
+		}
 		assignInPlace(p, v)
 		return
 	case *idxPtr:
@@ -614,6 +629,97 @@ func (in *Interp) storePtr(p Value, v Value) {
 		return
 	}
 	panic(fmt.Sprintf("store through %T", p))
+}
+
+func (in *Interp) guardHeld(g *guardInfo, write bool) bool {
+	st := in.mutexes[g.mu]
+	if st == nil {
+		return false
+	}
+	if write {
+		return st.writer
+	}
+	return st.writer || st.readers > 0
+}
+
+func (in *Interp) checkGuardCell(p *Value, write bool) {
+	g := in.guardCells[p]
+	if g == nil {
+		return
+	}
+	in.guardHits++
+	if !in.guardHeld(g, write) {
+		kind := "read"
+		if write {
+			kind = "write"
+		}
+		in.p.PathViolation(fmt.Sprintf("unsynchronised %s of %s (owning lock not held) at %s", kind, g.label, in.where()))
+	}
+}
+
+func (in *Interp) checkGuardMap(m *Map, write bool) {
+	g := in.guardMaps[m]
+	if g == nil {
+		return
+	}
+	in.guardHits++
+	if !in.guardHeld(g, write) {
+		kind := "read"
+		if write {
+			kind = "write"
+		}
+		in.p.PathViolation(fmt.Sprintf("unsynchronised map %s of %s (owning lock not held) at %s", kind, g.label, in.where()))
+	}
+}
+
+// addGuard registers v (a cell, struct, map ...) and what it directly contains.
+func (in *Interp) addGuard(v Value, g *guardInfo, depth int) {
+	if in.guardCells == nil {
+		in.guardCells = map[*Value]*guardInfo{}
+		in.guardMaps = map[*Map]*guardInfo{}
+	}
+	if depth > 6 {
+		return
+	}
+	switch x := v.(type) {
+	case *Value:
+		if x == nil || x == g.mu {
+			return
+		}
+		if _, seen := in.guardCells[x]; seen {
+			return
+		}
+		in.guardCells[x] = g
+		in.addGuard(*x, g, depth+1)
+	case Struct:
+		for i := range x {
+			if &x[i] == g.mu {
+				continue
+			}
+			if _, isMu := in.mutexes[&x[i]]; isMu {
+				continue
+			}
+			in.guardCells[&x[i]] = g
+			in.addGuard(x[i], g, depth+1)
+		}
+	case Array:
+		for i := range x {
+			in.guardCells[&x[i]] = g
+			in.addGuard(x[i], g, depth+1)
+		}
+	case *Map:
+		if x != nil {
+			in.guardMaps[x] = g
+		}
+	case Slice:
+		for i := range x {
+			in.guardCells[&x[i]] = g
+		}
+	case Iface:
+		if x.t != nil {
+			in.addGuard(x.v, g, depth+1)
+		}
+	}
 }
 
 // assignInPlace stores v into the cell *dst.  Structs and arrays are written
